@@ -2,7 +2,7 @@
    printed by harness/h10.  Each [check_*] returns the cases on which model and implementation
    disagree (with the position of the first difference and the model's answer); the driver
    expects []. *)
-From Syntax Require Import Lexer Green TokenStream.
+From Syntax Require Import Lexer Green TokenStream Recovery.
 
 Definition s2l := str_of_string.   (* used only for printable-ASCII texts: bytes = code points *)
 Definition tv := Build_trivium.
@@ -163,3 +163,15 @@ Definition check_oplog (cs : list oplog_case) : list (N * N * N) :=
         else if ok && negb (str_eqb (etext (p_emitted s)) src) then [(k, 0, 7)]
         else []
     end) (indexed 0 cs).
+
+(* ---- leg 4: the loop events of the real parser (hook Li / Lr / L-): every observed iteration of
+   parse_list, parse_separated_list_inner and skip_until meets the contract the progress theorems
+   of RecoveryProofs.v assume of the element parser and of should_stop ([iter_ok]); the other
+   instrumented loops (expression operators, paths, token trees, modifiers, conditions, macro
+   elements) are only watched: consecutive iterations consumed something. ---- *)
+Definition loops_case := list (lkind * list liter).
+Definition check_loops (cs : list loops_case) : list (N * N * N) :=
+  flat_map (fun '(k, runs) =>
+    flat_map (fun '(r, (kind, its)) =>
+      flat_map (fun '(i, it) => if iter_ok kind it then [] else [(k, r, i)]) (indexed 0 its))
+      (indexed 0 runs)) (indexed 0 cs).
